@@ -770,3 +770,81 @@ def _param_roots(cx, fn, local, depth=0, seen=None):
             for cl in (d[3].cl or ()):
                 pass
     return out
+
+
+# ---------------------------------------------------------------------------------------------
+# R-TRY-EXIT (C04): break / continue clear the catch points of the try blocks they leave
+
+def rule_try_exit(cx, tier):
+    r = RuleResult("R-TRY-EXIT", "a catch point registered by TryStart is removed only by a TryEnd instruction (or with its "
+                                 "frame) -- the VM's catch_stack has no other pop -- so the jumps that leave a try block "
+                                 "without running to its end, `break` and `continue`, are preceded by the emission of TryEnd "
+                                 "for the try blocks entered inside the loop; otherwise the stale catch point catches a "
+                                 "later, unrelated error")
+    from .enc import Writer
+    F = cx.F
+    w = Writer(cx)
+    # ---- VM protocol: who shrinks catch_stack
+    ex = cx.need_fn("koto_runtime::KotoVm::execute_instruction")
+    poppers = set()
+    for fn in F.fns.values():
+        if fn.crate.uname != "koto_runtime" or fn.derived:
+            continue
+        for c in fn.calls():
+            if c.is_("Vec::pop", "Vec::truncate", "Vec::clear", "Vec::drain", "Vec::remove", "Vec::swap_remove") and c.args:
+                pl = op_place(c.args[0])
+                l = op_base(c.args[0])
+                names = set(place_fields(pl)) if pl is not None else set()
+                d = cx.du(fn).single_def(l) if l is not None else None
+                if d is not None and d[2] == "assign" and d[3][0] in ("ref", "rawptr"):
+                    names |= set(place_fields(d[3][2]))
+                if "catch_stack" in names:
+                    poppers.add(fn.qual)
+    r.instances += 1
+    r.nontrivial += 1
+    require(poppers, "R-TRY-EXIT: no function pops KotoVm's catch_stack (catch point protocol changed: re-read the rule)")
+    if poppers != {ex.qual}:
+        r.undecided.append(f"catch_stack is shrunk by {sorted(poppers)}: the catch point protocol is no longer "
+                           f"'TryEnd or frame exit only'; the compiler clause below may not be necessary any more")
+    # ---- compiler: emitters of TryEnd
+    emitters = set()
+    for fn in w.fns:
+        for c in fn.calls():
+            if c.short in (COMP + "push_op", COMP + "push_op_without_span") and len(c.args) > 1:
+                if w.op_variants(fn, c.args[1]) == {"TryEnd"}:
+                    emitters.add(fn.qual)
+    require(emitters, "R-TRY-EXIT: no emission of Op::TryEnd in the compiler")
+    cn = cx.need_fn(COMP + "compile_node")
+    cfg = cx.cfg(cn)
+    sites = []
+    for c in cn.calls():
+        if c.short == COMP + "push_loop_jump_placeholder":
+            sites.append(("break", c))
+        elif c.short == COMP + "push_jump_back_op":
+            sites.append(("continue", c))
+    r.analysed = {"catch_stack_poppers": sorted(poppers), "TryEnd_emitters": sorted(x.rsplit("::", 1)[-1] for x in emitters),
+                  "loop_exit_jump_sites_in_compile_node": len(sites)}
+    r.floor("loop exit jump emissions in compile_node (break, continue)", len(sites), 2)
+    # the arm: region dominated by the target of the node-kind switch that dominates the site
+    for kind, c in sites:
+        r.instances += 1
+        r.nontrivial += 1
+        ok = False
+        for c2 in cn.calls():
+            if c2.bb == c.bb or not cfg.dominates(c2.bb, c.bb):
+                continue
+            direct = c2.short in (COMP + "push_op", COMP + "push_op_without_span") and len(c2.args) > 1 and \
+                w.op_variants(cn, c2.args[1]) == {"TryEnd"}
+            if direct or (c2.short in emitters and c2.short != COMP + "compile_node"):
+                # inside the same arm: not a call that also dominates the other arms' sites
+                others = [o for k2, o in sites if o.bb != c.bb and k2 != kind]
+                if any(cfg.dominates(c2.bb, o.bb) for o in others):
+                    continue
+                ok = True
+        r.sample({"statement": kind, "line": c.line, "TryEnd_emitted_before_jump": ok})
+        if not ok:
+            r.add(Finding("R-TRY-EXIT", cn.qual, kind,
+                          f"the jump emitted for `{kind}` is not preceded by the emission of TryEnd for the try blocks it "
+                          f"leaves: after `{kind}` inside a `try` in a loop the catch point stays registered, and a later "
+                          f"error in the same function is caught by a try block that has already been left", cn.file, c.line))
+    return r
